@@ -29,6 +29,8 @@ type Ctx struct {
 	TmpDir  string // scratch directory (tmpfs when available), removed by the parent
 	Replay  json.RawMessage
 	Verbose bool
+	// Flush writes the result file now (used by hang watchdogs before exiting the child).
+	Flush func()
 }
 
 func (c *Ctx) Quick() bool { return c.Tier != "thorough" }
@@ -336,4 +338,52 @@ func DecodeRef(raw []byte) (CaseRef, error) {
 	var cr CaseRef
 	err := json.Unmarshal(raw, &cr)
 	return cr, err
+}
+
+// Journal keeps one small file per worker holding the input being processed, so that an
+// unrecoverable death (fatal error, stack overflow, checkptr) can be attributed by the parent.
+type Journal struct {
+	files chan *os.File
+}
+
+func NewJournal(c *Ctx, n int) *Journal {
+	j := &Journal{files: make(chan *os.File, n)}
+	for i := 0; i < n; i++ {
+		f, err := os.Create(fmt.Sprintf("%s/journal.%d", c.TmpDir, i))
+		if err != nil {
+			panic(err)
+		}
+		j.files <- f
+	}
+	return j
+}
+
+// Do records the input, runs f, and clears the record.
+func (j *Journal) Do(label string, input []byte, f func()) {
+	fl := <-j.files
+	fl.Truncate(0)
+	fl.WriteAt([]byte(label+"\n"), 0)
+	fl.WriteAt(input, int64(len(label)+1))
+	f()
+	fl.Truncate(0)
+	j.files <- fl
+}
+
+// HangWatch runs f under a per-call watchdog: if f has not returned after limit, the hang is
+// recorded as a violation, the result is flushed and the child exits (the call cannot be cancelled).
+func HangWatch(c *Ctx, r *Result, sig, label string, input interface{}, limit time.Duration, f func()) {
+	done := make(chan struct{})
+	go func() {
+		select {
+		case <-done:
+		case <-time.After(limit):
+			r.Violate(sig, fmt.Sprintf("%s did not return within %v", label, limit), input)
+			if c.Flush != nil {
+				c.Flush()
+			}
+			os.Exit(0)
+		}
+	}()
+	f()
+	close(done)
 }
